@@ -51,11 +51,11 @@ func getCKKS(c *engine.Chooser, s circ.CKKSSpec) *circ.CKKS {
 
 // a target is one scheme/parameter set/packing on which transformations of dimension n are evaluated
 type target struct {
-	name string
-	n    int
-	lite bool // structured sets only (parameter sets that exist for one code path)
+	name  string
+	n     int
+	lite  bool // structured sets only (parameter sets that exist for one code path)
 	dense bool // only the dense structured sets, core entry points, no secondary axes (large n)
-	leaf func(c *engine.Chooser, scName string, cfg *scenarioCfg)
+	leaf  func(c *engine.Chooser, scName string, cfg *scenarioCfg)
 }
 
 var (
@@ -202,7 +202,7 @@ func scenarios(tier string) []engine.Scenario {
 				case thorough && size == 1:
 					bound = 2
 				case !thorough && size == 2 && tg.n >= 16:
-					bound, entries = 0, coreEntries
+					bound, entries = 1, coreEntries
 				case size == 3 && tg.n >= 16 && !thorough:
 					bound, entries = 0, []int{eEvaluateNew}
 				case size == 3 && tg.n >= 16:
